@@ -330,6 +330,10 @@ class Shaper:
             e1 = env
             self._loop_vars(s, e1)
             cond = self._expr(f, s.test, e1, out)
+            # `while n:` on a count read off the wire is `while n != 0:` (the token is an integer)
+            import re as _re
+            if _re.fullmatch(r"\$\d+|n\d+", cond or "") or (isinstance(s.test, ast.Attribute) and isinstance(s.test.value, ast.Name) and s.test.value.id == "self" and self.in_codec):
+                cond = f"({cond} != 0)"
             self._depth = getattr(self, "_depth", 0) + 1
             body = self._body(f, s.body, e1)
             self._depth -= 1
